@@ -35,6 +35,18 @@ pub fn dispatch(driver: &str, args: &Args) -> i32 {
     }
 }
 
+/// A panic in the code under test is data: the case becomes a `panic` event, which no
+/// specification action accepts.
+pub fn guarded(f: impl FnOnce() -> J) -> J {
+    match std::panic::catch_unwind(std::panic::AssertUnwindSafe(f)) {
+        Ok(j) => j,
+        Err(p) => {
+            let msg = p.downcast_ref::<String>().cloned().or_else(|| p.downcast_ref::<&str>().map(|s| s.to_string())).unwrap_or_else(|| "panic".into());
+            J::O(vec![("e", jv::js("panic")), ("msg", jv::js(&msg))])
+        }
+    }
+}
+
 /// Collects the events of many runs into NDJSON batch files of bounded size, plus a sidecar
 /// with the raw (uncompressed) description of every run for replay files.
 pub struct Batcher {
